@@ -290,7 +290,7 @@ MANIFEST = dict(
           "exactly size() elements, owning contents are unchanged by any operation on source buffers or on other slots (incl. "
           "destroying the original of a copy), a view reads exactly the source range, DataView[i] is the field of record i; "
           "witnesses that the pre-repair copy semantics violate wrapper_valid. The model is tied to the code by running the same "
-          "random op histories through the real headers (element sizes 1/4/24, ASan/UBSan, liveness queried from ASan) and the "
+          "random op histories through the real headers (element sizes 1/4/24 and an element type whose copies can throw; resize with a fill value that is an element of the array itself; resize / assignment during which the k-th copy or the n-th allocation fails; ASan/UBSan, liveness queried from ASan) and the "
           "compiled model and diffing every observation."),
     note=("Trusted: Lean kernel; axioms propext/Classical.choice/Quot.sound; the hand-written model is tied to the code only by the "
           "correspondence harness (generators + canonicalisation) and g++/ASan; std::vector/shared_ptr/new[]/memcpy assumed to meet "
